@@ -55,8 +55,8 @@ def observe (a : Lww) : Lww × List Res :=
 def run : Lww → List Op → List (List Res)
   | _, [] => []
   | a, op :: ops =>
-    let (a2, o) := observe (step a op)
-    o :: run a2 ops
+    let o := observe (step a op)
+    o.2 :: run o.1 ops
 
 end Lww
 end C12M
